@@ -11,6 +11,7 @@ from OpenPinch.classes.problem_table import ProblemTable
 from pvc.engine import Obligation
 from pvc.sym import And, Implies, Not, Or
 
+from . import unbounded
 from .shared import PT, table, tol
 
 LEVEL = "exploration"
@@ -118,6 +119,7 @@ def obligations():
                    expect=("hot_pinch_row_is_a_zero", "hot_pinch_rule", "cold_pinch_rule", "absent_only_if_no_zero"), max_paths=20000,
                    doc="zero rows, order, between-ness, threshold rule, absent only without a zero; temperatures are T[row]"),
         Obligation("C06.idx7.b", _ob_idx(7), kind="bounded", tier="thorough", bound="residual columns of 2..7 rows", functions=fs, max_paths=400000),
+        unbounded.pinch_obligation("C06.idx.u"),
         Obligation("C06.idx.column.b", ob_other_column, kind="bounded", bound="2..4 rows; column named by enum member or text", functions=fs),
         Obligation("C06.serialise", ob_serialise, kind="proof", functions=[EnergyTarget.serialize_json], expect=("collapsed_value", "both_reported_hot"),
                    doc="the record's pinch block carries the two temperatures; equal pinches collapse to one field (path-complete)"),
